@@ -84,6 +84,28 @@ def r1_chain(cx):
                 any(o == ("call", L) for (i, fld) in _oks(gb) if i in r for o in gb.origins(fld))
         # uuid and path are forwarded unchanged
         ok = ok and ("param", 2) in gb.origins(vloc[0][1]["args"][1], through_calls=False) and ("param", 3) in gb.origins(vloc[0][1]["args"][2], through_calls=False)
+    if not nx and not adapters:
+        # the same search written with the standard combinator: `self.0.iter().find_map(|l| l.locate(uuid, path).transpose()).transpose()`
+        # (Iterator::find_map stops at the first Some -- here the first Some(reader) or the first error -- in iteration order)
+        fm = gb.calls(r"Iterator>::find_map::<")
+        if len(fm) == 1 and ("field", "0") in gb.origins(fm[0][1]["args"][0]):
+            cls = [c for c in F.closures_of(g) if "blocks" in c]
+            good = []
+            for c in cls:
+                cb = F.body(c)
+                lc = cb.calls(r"PackLocatorTrait>::locate$")
+                tr = cb.calls(r"Result::<std::option::Option<.*>, .*>::transpose$")
+                if len(lc) == 1 and len(tr) == 1 and ("call", lc[0][0]) in cb.origins(tr[0][1]["args"][0]) and ("call", tr[0][0]) in cb.origins(0) \
+                        and ("param", 1) in cb.origins(lc[0][1]["args"][1]) and ("param", 1) in cb.origins(lc[0][1]["args"][2]) and ("param", 2) in cb.origins(lc[0][1]["args"][0]):
+                    caps = [st for blk in gb.blocks for st in blk["s"] if st["k"] == "assign" and st["rv"]["k"] == "agg" and st["rv"].get("closure_fn") == c["id"]]
+                    co = set()
+                    for st in caps:
+                        for fo in st["rv"]["fields"]:
+                            co |= gb.origins(fo)
+                    if ("param", 2) in co and ("param", 3) in co:
+                        good.append(c)
+            outer = gb.calls(r"Option::<std::result::Result<.*>>::transpose$")
+            ok = len(good) == 1 and len(outer) == 1 and ("call", fm[0][0]) in gb.origins(outer[0][1]["args"][0]) and ("call", outer[0][0]) in gb.origins(0)
     cx.ob("R1", "R1/ChainedLocator.locate/first-some-wins", ok, g, "ChainedLocator::locate iterates the vector forward and returns the first Some(reader), forwarding (uuid, path) unchanged")
     h = F.one(impl_self="ContainerPack", item="locate", trait="PackLocatorTrait", closure=False)
     hb = F.body(h)
@@ -144,7 +166,7 @@ def r2_whole_file(cx):
     F = cx.F
     n_src = 0
     work = []  # (function, seed locals, description)
-    for f in F.fns:
+    for f in F.live_fns:
         if "blocks" not in f:
             continue
         b = None
@@ -171,7 +193,7 @@ def r2_whole_file(cx):
             # callers of f (directly, or through the trait method it implements) receive a whole-file reader
             targets = {f["id"]}
             trait_items = [it for it, fns in ti.items() if f["id"] in fns]
-            for g in F.fns:
+            for g in F.live_fns:
                 if "blocks" not in g or g["id"] == f["id"]:
                     continue
                 gb = None
